@@ -3,6 +3,13 @@
 // Model-based check.  A command sequence is executed against
 //   * a view `dynamic_array_ref<Byte, Value, Length, Endian>` over the middle of a pattern-filled arena, and
 //   * a `std::vector<Value>` that receives literally the same member call.
+// Value arguments come in two flavours: a local copy (push_back, insert, insert_n, resize_v, assign_n) and, for the four
+// calls that std::vector defines for it, an lvalue that refers to an element of the *same* view (push_back_self,
+// insert_self, insert_n_self, resize_v_self: `d.insert(pos, d.back())`, `d.push_back(d[k])`, ...; reference forms
+// d[k], d.front(), d.back(), *(d.begin()+k)).  The model receives the element value read before the call, which is
+// what [sequence.reqmts] guarantees for a.insert(p,t), a.insert(p,n,t), a.push_back(t) and vector::resize(sz,c) (no
+// "t is not a reference into a" precondition, unlike assign(n,t) and the iterator-range overloads, which therefore
+// have no self-referencing variant here).
 // After every command the oracle (see MachineBase::step) compares the independently decoded length prefix, the
 // payload bytes, the returned iterator offset, every arena byte outside the prefix + payload-in-use, the
 // read-only accessors, and requires that no sbepp assertion fired (SBEPP_ENABLE_ASSERTS_WITH_HANDLER).
@@ -22,7 +29,8 @@
 //
 // Case syntax (FAIL lines, --replay):   cfg=<len>.<le|be>.<value>.<byte>;cap=<n>;size=<n>;buf=<hex>;ops=<cmd> <cmd> ...
 //   buf = initial bytes of the payload area (rest: fill byte 0xEE), size = initial length prefix,
-//   cmd = name(args): positions/counts decimal offsets from begin(), element values two hex digits, data x<hex>.
+//   cmd = name(args): positions/counts decimal offsets from begin(), element values two hex digits, data x<hex>,
+//   element of the same view (the *_self commands): at<k> = d[k], front = d.front(), back = d.back(), it<k> = *(d.begin()+k).
 // A sanitizer abort prints the exact case in flight (death callback), so crashes are replayable too.
 #ifndef SBEPP_ENABLE_ASSERTS_WITH_HANDLER
 #    define SBEPP_ENABLE_ASSERTS_WITH_HANDLER
@@ -75,13 +83,30 @@ enum Op : int
     ARANGE_FLIST,
     ARANGE_RVAL,
     CLEAR,
+    // value argument = lvalue referring to an element of the same view (kept at the end: the tape of the random
+    // engine shrinks towards the first ops)
+    PUSH_BACK_SELF,
+    INSERT1_SELF,
+    INSERT_N_SELF,
+    RESIZE_V_SELF,
     OP_COUNT
 };
+
+// how the element of the same view is named in a *_self command
+enum RefForm : int
+{
+    R_AT,    // d[k]
+    R_FRONT, // d.front()
+    R_BACK,  // d.back()
+    R_IT,    // *(d.begin() + k)
+    R_COUNT
+};
+static const char* const REF_NAMES[R_COUNT] = {"at", "front", "back", "it"};
 
 struct OpInfo
 {
     const char* name;     // in case text
-    const char* fields;   // a,b: numbers; v: element value; d: data
+    const char* fields;   // a,b: numbers; v: element value; d: data; r: element of the same view
     int overload;         // identity of the member function overload (the "mutator")
     bool takes_pos;       // has a position argument
     const char* callsite; // for signatures
@@ -111,8 +136,12 @@ static const OpInfo OPS[OP_COUNT] = {
     {"assign_range_flist", "d", 15, false, "assign_range(const forward_list&)"},
     {"assign_range_rval", "d", 15, false, "assign_range(vector&&)"},
     {"clear", "", 16, false, "clear()"},
+    {"push_back_self", "r", 0, false, "push_back(element of the same view)"},
+    {"insert_self", "ar", 2, true, "insert(pos,element of the same view)"},
+    {"insert_n_self", "abr", 3, true, "insert(pos,count,element of the same view)"},
+    {"resize_v_self", "ar", 9, false, "resize(count,element of the same view)"},
 };
-// 17 distinct overloads (column `overload`)
+// 17 distinct overloads (column `overload`; a *_self command calls the same overload as its by-value twin)
 static const size_t MAX_ILIST = 8; // the harness builds initializer lists of 0..8 elements
 
 struct CCmd
@@ -121,7 +150,24 @@ struct CCmd
     uint64_t a = 0, b = 0;
     unsigned char v = 0;
     std::string data; // raw bytes
+    int rform = R_AT; // *_self: how the element is named ...
+    uint64_t rk = 0;  // ... and its index (R_AT, R_IT; 0 otherwise)
 };
+
+static inline bool is_self(Op op)
+{
+    return op == PUSH_BACK_SELF || op == INSERT1_SELF || op == INSERT_N_SELF || op == RESIZE_V_SELF;
+}
+// index of the element a *_self command refers to, in a container of size n > 0
+static inline uint64_t ref_index(const CCmd& c, uint64_t n)
+{
+    return c.rform == R_FRONT ? 0 : c.rform == R_BACK ? n - 1 : c.rk;
+}
+static inline bool ref_valid(const CCmd& c, uint64_t n)
+{
+    if(!n || c.rform < 0 || c.rform >= R_COUNT) return false;
+    return (c.rform == R_AT || c.rform == R_IT) ? c.rk < n : c.rk == 0;
+}
 
 static std::string hex(const std::string& s)
 {
@@ -170,6 +216,11 @@ static std::string to_text(const CCmd& c)
         if(*f == 'a') r += std::to_string(c.a);
         else if(*f == 'b') r += std::to_string(c.b);
         else if(*f == 'v') r += hex(std::string(1, static_cast<char>(c.v)));
+        else if(*f == 'r')
+        {
+            r += REF_NAMES[c.rform];
+            if(c.rform == R_AT || c.rform == R_IT) r += std::to_string(c.rk);
+        }
         else r += "x" + hex(c.data);
     }
     r += ')';
@@ -212,6 +263,18 @@ static bool parse_cmd(const std::string& t, CCmd& c)
             if(!unhex(args[i], b) || b.size() != 1) return false;
             c.v = static_cast<unsigned char>(b[0]);
         }
+        else if(f == 'r')
+        {
+            int form = -1;
+            for(int k = 0; k < R_COUNT; k++)
+                if(args[i].compare(0, strlen(REF_NAMES[k]), REF_NAMES[k]) == 0) form = k;
+            if(form < 0) return false;
+            const std::string rest = args[i].substr(strlen(REF_NAMES[form]));
+            const bool indexed = form == R_AT || form == R_IT;
+            if(indexed != !rest.empty() || rest.find_first_not_of("0123456789") != std::string::npos) return false;
+            c.rform = form;
+            c.rk = indexed ? strtoull(rest.c_str(), nullptr, 10) : 0;
+        }
         else
         {
             if(args[i].empty() || args[i][0] != 'x' || !unhex(args[i].substr(1), c.data)) return false;
@@ -225,12 +288,17 @@ static bool parse_cmd(const std::string& t, CCmd& c)
 static bool valid(const CCmd& c, uint64_t n, uint64_t limit, uint64_t& newn)
 {
     const uint64_t dl = c.data.size();
+    // the element named by a *_self command has to exist
+    if(is_self(c.op) && !ref_valid(c, n)) return false;
     switch(c.op)
     {
-    case PUSH_BACK: newn = n + 1; return newn <= limit;
+    case PUSH_BACK:
+    case PUSH_BACK_SELF: newn = n + 1; return newn <= limit;
     case POP_BACK: newn = n - 1; return n > 0;
-    case INSERT1: newn = n + 1; return c.a <= n && newn <= limit;
-    case INSERT_N: newn = n + c.b; return c.a <= n && c.b <= limit && newn <= limit;
+    case INSERT1:
+    case INSERT1_SELF: newn = n + 1; return c.a <= n && newn <= limit;
+    case INSERT_N:
+    case INSERT_N_SELF: newn = n + c.b; return c.a <= n && c.b <= limit && newn <= limit;
     case INSERT_IN:
     case INSERT_FWD:
     case INSERT_PTR: newn = n + dl; return c.a <= n && newn <= limit;
@@ -239,6 +307,7 @@ static bool valid(const CCmd& c, uint64_t n, uint64_t limit, uint64_t& newn)
     case ERASE_R: newn = n - (c.b - c.a); return c.a <= c.b && c.b <= n;
     case RESIZE:
     case RESIZE_V:
+    case RESIZE_V_SELF:
     case RESIZE_DI:
     case ASSIGN_N: newn = c.a; return c.a <= limit;
     case ASSIGN_IN:
@@ -261,6 +330,8 @@ static bool boundary(const CCmd& c, uint64_t n)
     {
     case INSERT1:
     case INSERT_N:
+    case INSERT1_SELF:
+    case INSERT_N_SELF:
     case INSERT_IN:
     case INSERT_FWD:
     case INSERT_PTR:
@@ -269,6 +340,15 @@ static bool boundary(const CCmd& c, uint64_t n)
     case ERASE_R: return c.a == 0 || c.b == n;
     default: return false;
     }
+}
+
+// *_self insertion whose referenced element is moved by the insertion itself (it lies at or behind the insertion
+// position and at least one element is inserted): the argument is only good if it is read before the shift
+static bool ref_shifted(const CCmd& c, uint64_t n)
+{
+    if(c.op == INSERT1_SELF) return ref_index(c, n) >= c.a;
+    if(c.op == INSERT_N_SELF) return c.b > 0 && ref_index(c, n) >= c.a;
+    return false;
 }
 
 // ------------------------------------------------------------------------------------------------------------
@@ -563,6 +643,8 @@ protected:
         src.resize(c.data.size());
         if(!src.empty()) memcpy(src.data(), c.data.data(), src.size());
         memcpy(&v, &c.v, 1);
+        // *_self: the model gets the element's value as it is before the call
+        if(is_self(c.op)) v = model[static_cast<size_t>(ref_index(c, model.size()))];
         vst = Stream<Value>{src.data(), src.data() + src.size()};
         if(c.op == INSERT_FWD || c.op == ASSIGN_FWD || c.op == ARANGE_FLIST) vfl.assign(src.begin(), src.end());
         if(c.op == ARANGE_VEC || c.op == ARANGE_RVAL) vvec = src;
@@ -577,10 +659,13 @@ protected:
         bool has = true;
         switch(c.op)
         {
-        case PUSH_BACK: model.push_back(v); has = false; break;
+        case PUSH_BACK:
+        case PUSH_BACK_SELF: model.push_back(v); has = false; break;
         case POP_BACK: model.pop_back(); has = false; break;
-        case INSERT1: r = model.insert(mpos(c.a), v); break;
-        case INSERT_N: r = model.insert(mpos(c.a), static_cast<size_t>(c.b), v); break;
+        case INSERT1:
+        case INSERT1_SELF: r = model.insert(mpos(c.a), v); break;
+        case INSERT_N:
+        case INSERT_N_SELF: r = model.insert(mpos(c.a), static_cast<size_t>(c.b), v); break;
         case INSERT_IN:
         {
             Stream<Value> st{src.data(), src.data() + src.size()};
@@ -599,7 +684,8 @@ protected:
         case ERASE_R: r = model.erase(mpos(c.a), mpos(c.b)); break;
         case RESIZE:
         case RESIZE_DI: model.resize(static_cast<size_t>(c.a)); has = false; break;
-        case RESIZE_V: model.resize(static_cast<size_t>(c.a), v); has = false; break;
+        case RESIZE_V:
+        case RESIZE_V_SELF: model.resize(static_cast<size_t>(c.a), v); has = false; break;
         case ASSIGN_N: model.assign(static_cast<size_t>(c.a), v); has = false; break;
         case ASSIGN_IN:
         {
@@ -677,8 +763,31 @@ protected:
         const std::forward_list<Value>& cvfl = B::vfl;
         const Value* const sb = src.data();
         const Value* const se = src.data() + src.size();
+        const size_type k_st = static_cast<size_type>(c.rk);
+        // *_self: the argument expression is an lvalue naming an element of `view` itself, in the form chosen by the case
+#define C13_WITH_SELF(CALL)                                  \
+    switch(c.rform)                                          \
+    {                                                        \
+    case R_AT: CALL(view[k_st]); break;                      \
+    case R_FRONT: CALL(view.front()); break;                 \
+    case R_BACK: CALL(view.back()); break;                   \
+    case R_IT: CALL(*(view.begin() + c.rk)); break;          \
+    default: abort();                                        \
+    }
+#define C13_PUSH_BACK(x) view.push_back(x)
+#define C13_INSERT1(x) ret = view.insert(view.begin() + c.a, x) - vb
+#define C13_INSERT_N(x) ret = view.insert(view.begin() + c.a, b_st, x) - vb
+#define C13_RESIZE_V(x) view.resize(a_st, x)
+        static_assert(std::is_same<decltype(view[k_st]), Value&>::value && std::is_same<decltype(view.front()), Value&>::value
+                          && std::is_same<decltype(view.back()), Value&>::value
+                          && std::is_same<decltype(*(view.begin() + c.rk)), Value&>::value,
+                      "element accessors of a writable view return lvalue references");
         switch(c.op)
         {
+        case PUSH_BACK_SELF: C13_WITH_SELF(C13_PUSH_BACK) break;
+        case INSERT1_SELF: C13_WITH_SELF(C13_INSERT1) break;
+        case INSERT_N_SELF: C13_WITH_SELF(C13_INSERT_N) break;
+        case RESIZE_V_SELF: C13_WITH_SELF(C13_RESIZE_V) break;
         case PUSH_BACK: view.push_back(v); break;
         case POP_BACK: view.pop_back(); break;
         case INSERT1: ret = view.insert(view.begin() + c.a, v) - vb; break;
@@ -706,6 +815,11 @@ protected:
         case CLEAR: view.clear(); break;
         default: abort();
         }
+#undef C13_WITH_SELF
+#undef C13_PUSH_BACK
+#undef C13_INSERT1
+#undef C13_INSERT_N
+#undef C13_RESIZE_V
     }
 
     // returns 0 or the index (into STAGES) of the first accessor that disagrees with the model
@@ -972,7 +1086,8 @@ static void all_strings(const std::string& alpha, size_t maxlen, std::vector<std
     }
 }
 
-// full = also the pointer-iterator, forward_list-range and rvalue-range variants
+// full = also the pointer-iterator, forward_list-range and rvalue-range variants and the *(begin()+k) form of the
+// self-referencing value argument (the other forms, d[k] for every k, d.front() and d.back(), are always enumerated)
 static std::vector<CCmd> enumerate_ops(uint64_t n, uint64_t limit, const std::string& alpha, bool full)
 {
     std::vector<CCmd> r;
@@ -988,13 +1103,41 @@ static std::vector<CCmd> enumerate_ops(uint64_t n, uint64_t limit, const std::st
         uint64_t nn;
         if(valid(c, n, limit, nn)) r.push_back(c);
     };
+    // every way of naming an element of a view of size n
+    std::vector<std::pair<int, uint64_t>> refs;
+    if(n)
+    {
+        for(uint64_t k = 0; k < n; k++) refs.push_back({R_AT, k});
+        refs.push_back({R_FRONT, 0});
+        refs.push_back({R_BACK, 0});
+        if(full)
+            for(uint64_t k = 0; k < n; k++) refs.push_back({R_IT, k});
+    }
+    const auto add_self = [&](Op op, uint64_t a, uint64_t b) {
+        for(const auto& rf : refs)
+        {
+            CCmd c;
+            c.op = op;
+            c.a = a;
+            c.b = b;
+            c.rform = rf.first;
+            c.rk = rf.second;
+            uint64_t nn;
+            if(valid(c, n, limit, nn)) r.push_back(c);
+        }
+    };
     for(unsigned char v : alpha) add(PUSH_BACK, 0, 0, v, "");
+    add_self(PUSH_BACK_SELF, 0, 0);
     add(POP_BACK, 0, 0, 0, "");
     for(uint64_t p = 0; p <= n; p++)
     {
         for(unsigned char v : alpha) add(INSERT1, p, 0, v, "");
+        add_self(INSERT1_SELF, p, 0);
         for(uint64_t k = 0; k + n <= limit; k++)
+        {
             for(unsigned char v : alpha) add(INSERT_N, p, k, v, "");
+            add_self(INSERT_N_SELF, p, k);
+        }
         for(const auto& s : strs)
         {
             add(INSERT_IN, p, 0, 0, s);
@@ -1015,6 +1158,7 @@ static std::vector<CCmd> enumerate_ops(uint64_t n, uint64_t limit, const std::st
             add(RESIZE_V, k, 0, v, "");
             add(ASSIGN_N, k, 0, v, "");
         }
+        add_self(RESIZE_V_SELF, k, 0);
     }
     for(const auto& s : strs)
     {
@@ -1033,6 +1177,33 @@ static std::vector<CCmd> enumerate_ops(uint64_t n, uint64_t limit, const std::st
     add(CLEAR, 0, 0, 0, "");
     return r;
 }
+
+// distribution counters of the commands executed by one engine: per command name, and for the *_self commands per
+// reference form + how often the referenced element is one that the insertion itself moves
+struct OpCounts
+{
+    long op[OP_COUNT] = {0};
+    long form[R_COUNT] = {0};
+    long shifted = 0;
+
+    void count(const CCmd& c, uint64_t n)
+    {
+        op[c.op]++;
+        if(is_self(c.op))
+        {
+            form[c.rform]++;
+            if(ref_shifted(c, n)) shifted++;
+        }
+    }
+    void report(hc::Report& rep) const
+    {
+        for(int i = 0; i < OP_COUNT; i++)
+            if(op[i]) rep.cls(std::string("op_") + OPS[i].name, op[i]);
+        for(int i = 0; i < R_COUNT; i++)
+            if(form[i]) rep.cls(std::string("selfref_") + REF_NAMES[i], form[i]);
+        if(shifted) rep.cls("selfref_element_moved_by_insert", shifted);
+    }
+};
 
 static const size_t SCOPE_CAP = 4;
 static const char* const SCOPE_ALPHA = "ab";
@@ -1063,7 +1234,7 @@ static ClosureStats run_closure(Ctx& cx, IMachine& m)
     queue.push_back(key);
     const std::string head = case_head(m.name(), SCOPE_CAP, 0, "");
     Outcome out;
-    long opcount[OP_COUNT] = {0};
+    OpCounts opcount;
     std::string prefix;
     while(!queue.empty())
     {
@@ -1081,7 +1252,7 @@ static ClosureStats run_closure(Ctx& cx, IMachine& m)
             m.load(key);
             st.steps++;
             cx.rep.evaluations++;
-            opcount[c.op]++;
+            opcount.count(c, n);
             g_inflight.cmd = &c;
             const bool ok = m.step(c, out);
             const uint32_t mask = info.ovmask | (1u << OPS[c.op].overload);
@@ -1098,8 +1269,7 @@ static ClosureStats run_closure(Ctx& cx, IMachine& m)
         }
     }
     g_inflight = InFlight();
-    for(int i = 0; i < OP_COUNT; i++)
-        if(opcount[i]) cx.rep.cls(std::string("op_") + OPS[i].name, opcount[i]);
+    opcount.report(cx.rep);
     if(cx.rep.samples.size() < 2)
     {
         // the deepest discovered state as a sample
@@ -1125,6 +1295,7 @@ struct Dfs
     bool count_nontrivial;
     std::string sample;
     Outcome out;
+    OpCounts opcount;
 
     std::string text() const
     {
@@ -1140,6 +1311,7 @@ struct Dfs
         path.push_back(&c);
         nodes++;
         cx.rep.evaluations++;
+        opcount.count(c, n);
         if((nodes & 0xfffff) == 1) hc::current_always(text());
         if(nodes == 777777 || (nodes == 7777 && sample.empty())) sample = text();
         const bool ok = m.step(c, out);
@@ -1166,7 +1338,7 @@ struct Dfs
 
 static void run_dfs(Ctx& cx, IMachine& m, int depth, long shard, long nshards)
 {
-    Dfs d{cx, m, depth, {}, {}, {}, "", 0, true, "", {}};
+    Dfs d{cx, m, depth, {}, {}, {}, "", 0, true, "", {}, {}};
     d.ops.resize(SCOPE_CAP + 1);
     for(size_t n = 0; n <= SCOPE_CAP; n++) d.ops[n] = enumerate_ops(n, SCOPE_CAP, SCOPE_ALPHA, false);
     d.saved.resize(depth + 1);
@@ -1190,6 +1362,7 @@ static void run_dfs(Ctx& cx, IMachine& m, int depth, long shard, long nshards)
     }
     g_inflight = InFlight();
     cx.rep.cls("dfs_nodes", d.nodes);
+    d.opcount.report(cx.rep);
     if(!d.sample.empty()) cx.rep.sample("dfs: " + d.sample, 100);
 }
 
@@ -1244,6 +1417,8 @@ struct ACmd
     int op = 0;
     int psel = 0, psel2 = 0, csel = 0;
     unsigned pfrac = 0, pfrac2 = 0, cval = 0;
+    int rsel = 0;       // *_self: reference form ...
+    unsigned rfrac = 0; // ... and element
     unsigned char v = 0;
     std::vector<unsigned char> seed;
 };
@@ -1307,12 +1482,23 @@ static bool resolve(const ACmd& a, uint64_t n, uint64_t limit, CCmd& c)
         default: return std::min<uint64_t>(limit, a.cval % 12);
         }
     };
+    if(is_self(c.op))
+    {
+        // an element of the view itself as the value argument: needs one.  Elements behind the insertion position are
+        // the ones an insertion moves, so the last element is a frequent choice besides a uniformly drawn one.
+        if(!n) return false;
+        c.rform = a.rsel % R_COUNT;
+        if(c.rform == R_AT || c.rform == R_IT) c.rk = (a.rfrac & 1) ? n - 1 - (a.rfrac >> 1) % std::min<uint64_t>(n, 3) : (a.rfrac >> 1) % n;
+    }
     switch(c.op)
     {
-    case PUSH_BACK: return room > 0;
+    case PUSH_BACK:
+    case PUSH_BACK_SELF: return room > 0;
     case POP_BACK: return n > 0;
-    case INSERT1: c.a = pos(a.psel, a.pfrac, n); return room > 0;
+    case INSERT1:
+    case INSERT1_SELF: c.a = pos(a.psel, a.pfrac, n); return room > 0;
     case INSERT_N:
+    case INSERT_N_SELF:
         c.a = pos(a.psel, a.pfrac, n);
         c.b = count();
         return true;
@@ -1346,6 +1532,7 @@ static bool resolve(const ACmd& a, uint64_t n, uint64_t limit, CCmd& c)
         return true;
     case RESIZE:
     case RESIZE_V:
+    case RESIZE_V_SELF:
     case RESIZE_DI:
     case ASSIGN_N: c.a = target(); return true;
     case ASSIGN_IN:
@@ -1379,7 +1566,8 @@ static unsigned char byte_of(unsigned x)
 static const std::vector<int>& op_table()
 {
     // inserts and erases are the interesting part: heavier than whole-content assignments
-    static const int weights[OP_COUNT] = {4, 3, 5, 5, 4, 4, 2, 3, 5, 8, 2, 2, 3, 1, 1, 1, 1, 1, 1, 1, 1, 1, 1};
+    static const int weights[OP_COUNT] = {4, 3, 5, 5, 4, 4, 2, 3, 5, 8, 2, 2, 3, 1, 1, 1, 1, 1, 1, 1, 1, 1, 1,
+                                          /* *_self */ 2, 5, 5, 2};
     static std::vector<int> t;
     if(t.empty())
         for(int op = 0; op < OP_COUNT; op++)
@@ -1399,6 +1587,8 @@ static ACmd decode_cmd(const std::vector<unsigned>& r)
     a.csel = static_cast<int>(r[3] % 24);
     a.cval = r[3] / 24;
     a.v = byte_of(r[4]);
+    a.rsel = static_cast<int>(r[7] & 3);
+    a.rfrac = r[7] >> 2;
     const unsigned len = 1 + r[5] % 5;
     for(unsigned i = 0; i < len; i++) a.seed.push_back(byte_of(r[5] / 5 + i * 7919u + r[6] * (i + 1)));
     return a;
@@ -1444,7 +1634,7 @@ static std::string random_property(Ctx& cx, const ACase& ac)
     CCmd c;
     bool first = true;
     long skipped = 0;
-    std::vector<int> opcount(OP_COUNT, 0);
+    OpCounts opcount;
     std::string result;
     for(const ACmd& a : ac.cmds)
     {
@@ -1460,7 +1650,7 @@ static std::string random_property(Ctx& cx, const ACase& ac)
         ri.ovmask |= 1u << OPS[c.op].overload;
         ri.bnd = ri.bnd || boundary(c, n);
         ri.executed++;
-        opcount[c.op]++;
+        opcount.count(c, n);
         cx.steps++;
         if((n == limit || nn == limit) && limit > 8) cx.rep.cls("step_at_length_limit");
         if(!m.step(c, out))
@@ -1480,8 +1670,7 @@ static std::string random_property(Ctx& cx, const ACase& ac)
         cx.rep.cls(cap_class(cap));
         cx.rep.cls("cmds_skipped_precondition", skipped);
         cx.rep.cls(ri.executed <= 5 ? "len_0_5" : ri.executed <= 20 ? "len_6_20" : ri.executed <= 80 ? "len_21_80" : "len_81_plus");
-        for(int i = 0; i < OP_COUNT; i++)
-            if(opcount[i]) cx.rep.cls(std::string("op_") + OPS[i].name, opcount[i]);
+        opcount.report(cx.rep);
         if(popcount32(ri.ovmask) >= 2 && ri.bnd)
         {
             cx.rep.nontriv(text);
